@@ -876,3 +876,64 @@ def scale_form(node, e):
   for i in idx:
     p[i] = (p[i] * 10.0 ** e) if p[i] != 0 else 0.0
   return {"k": "form", "name": name, "p": p}
+
+
+def exact_boundary_model(rng, target, variant, nr=None):
+  """A pair model on a grid that is exact in doubles (dyadic step) with a discontinuity exactly ON a row: the first
+  row, an interior row or the last row (= cutoff); or a table form whose data points are the grid rows themselves
+  (last x == cutoff).  Returns (model, k) with k the row index (r = k*dr) of the boundary."""
+  nr = nr or rng.choice([3, 5, 9, 17])
+  dr = rng.choice([0.25, 0.5, 0.125])
+  cutoff = (nr - 1) * dr
+  k = {"first": 1, "last": nr - 1}.get(variant.split(":")[0], rng.randint(1, nr - 1))
+  inner = {"k": "form", "name": "polynomial", "p": [rfloat(rng, 1.0, 5.0), rfloat(rng, -1.0, -0.2), rfloat(rng, 0.01, 0.1)]}
+  outer = rng.choice([{"k": "form", "name": "zero", "p": []}, {"k": "form", "name": "polynomial", "p": [rfloat(rng, -3.0, -1.0), rfloat(rng, 0.3, 1.0)]},
+                      {"k": "form", "name": "constant", "p": [rfloat(rng, 7.0, 9.0)]}])
+  tables = []
+  if variant.endswith("table"):
+    xs = [i * dr for i in range(0 if rng.random() < 0.5 else 1, nr)]
+    if len(xs) < 4:
+      xs = [i * dr / 2 for i in range(0, 2 * nr - 1)]
+    tables = [{"name": "gridtab", "x": xs, "y": [rfloat(rng, -2.0, 2.0, 4) for _ in xs], "as": rng.choice(["xy", "x_y"])}]
+    node = {"k": "table", "name": "gridtab"}
+    k = nr - 1
+  else:
+    marker = ">" if variant.endswith(">") else ">="
+    node = {"k": "ranges", "parts": [[">", 0.0, inner], [marker, k * dr, outer]]}
+  model = {"type": "pair", "target": target, "tab": {"nr": nr, "cutoff": cutoff}, "forms": [], "tables": tables, "pair": [["Ar", "Kr", node]]}
+  return model, k
+
+
+EXACT_BOUNDARY_VARIANTS = ["first:>", "first:>=", "middle:>", "middle:>=", "last:>", "last:>=", "grid:table"]
+
+
+def exact_boundary_eam(rng, kind, target, route="potable"):
+  """EAM / FS model on r and rho grids that are exact in doubles, every function with a discontinuity exactly on a row
+  (first, interior or last = cutoff).  Returns the model; model['exact_rows'] lists the rows to look at."""
+  nr, nrho = rng.choice([5, 9, 17]), rng.choice([3, 5, 9])
+  dr, drho = rng.choice([0.25, 0.5, 0.125]), rng.choice([0.5, 1.0, 0.25])
+  m = gen_eam_model(rng, kind, route, target=target, grids={"nr": nr, "nrho": nrho}, nspecies=rng.choice([1, 2]), underspecified=0)
+  m["tab"]["cutoff"] = (nr - 1) * dr
+  m["tab"]["cutoff_rho"] = (nrho - 1) * drho
+  m["forms"], m["tables"] = [], []
+  rows_r, rows_rho = set(), set()
+
+  def stepfn(n, step, rows, positive=False):
+    k = rng.choice([1, n - 1, rng.randint(1, n - 1)])
+    rows.add(k)
+    a = {"k": "form", "name": "polynomial", "p": [rfloat(rng, 1.0, 5.0), rfloat(rng, 0.05, 0.5)]}
+    b = rng.choice([{"k": "form", "name": "zero", "p": []}, {"k": "form", "name": "constant", "p": [rfloat(rng, 7.0, 9.0)]},
+                    {"k": "form", "name": "polynomial", "p": [rfloat(rng, 10.0, 12.0), rfloat(rng, 0.3, 1.0)]}])
+    return {"k": "ranges", "parts": [[">=" if route == "potable" and rng.random() < 0.5 else ">", 0.0, a], [rng.choice([">", ">="]), k * step, b]]}
+
+  for ent in m["embed"]:
+    ent[-1] = stepfn(nrho, drho, rows_rho)
+  for ent in m["density"]:
+    ent[-1] = stepfn(nr, dr, rows_r)
+  for ent in m["pair"]:
+    ent[-1] = stepfn(nr, dr, rows_r)
+  for key in ("dipole", "quadrupole"):
+    for ent in m.get(key) or []:
+      ent[-1] = stepfn(nr, dr, rows_r)
+  m["exact_rows"] = {"r": sorted(rows_r), "rho": sorted(rows_rho)}
+  return m
